@@ -208,9 +208,9 @@ def c05_runs(tier):
         for N in range(0, 11):
             r.append(timers_run('step.pair.N%d' % N, covers=['C05.step-register'], mode=1, N=N, sym=1))
     # two-bit split: levels hold 4, 16, 64 entries
-    for N in ([3, 4, 5, 15, 16, 17] if q else list(range(0, 34)) + [62, 63, 64, 65, 66]):
+    for N in ([3, 4, 5, 15, 16, 17] if q else list(range(0, 26)) + [63, 64, 65]):
         r.append(timers_run('step2bit.N%d' % N, two, covers=['C05.step-register'], mode=1, N=N, sym=3))
-    for N in ([127, 128, 16383, 16384] if q else [126, 127, 128, 129, 130, 16382, 16383, 16384, 16385]):
+    for N in ([127, 128, 16383, 16384] if q else [127, 128, 129, 16383, 16384, 16385]):
         x = timers_run('boundary.N%d' % N, covers=['C05.boundary-register', 'C05.boundary-unregister'], mode=2, N=N)
         x['min_tasks'] = 8
         x['max_split'] = 3
@@ -606,7 +606,8 @@ CHECKS = {
                            'reading the library used; handler-entry oracle: clock >= expiry, once.',
             'bounds': {'quick': '2 timers + 1 always-readable fd, 7 iterations (timerfd optimisation engages), times '
                                 'within one second (nsec unknown) and the zero instant; full (sec,nsec) unknown pairs '
-                                'for 2 iterations', 'thorough': '9 iterations, 2 operations'},
+                                'for 2 iterations', 'thorough': '9 iterations with 1 timer operation, 7 iterations with 2; '
+                                'timer descriptor x task and x unregister runs as in quick'},
             'outside': LOOP_OUTSIDE, 'assumptions': ENV_ASSUMPTIONS},
     'C05': {'runs': c05_runs,
             'explanation': 'C05: (a) every history of L register/unregister operations from empty with unknown '
@@ -618,9 +619,10 @@ CHECKS = {
                            'unknown key, and the 4/16/64 boundaries with the 2-bit hook and all keys unknown.',
             'bounds': {'quick': 'histories L<=5; step N in {0,1,2,3,5,8,13} (7-bit) and {3,4,5,15,16,17} (2-bit); '
                                 'boundaries N in {127,128,16383,16384}',
-                       'thorough': 'histories L<=7; step N=0..31 (7-bit), 0..66 (2-bit); boundaries 126..130, 16382..16385'},
-            'outside': 'populations between the sampled N for the inductive step in the quick tier; more than one '
-                       'unknown key at the 128/16384 boundaries; expiries beyond 10^6 s in this harness',
+                       'thorough': 'histories L<=6; step N=0..31 (7-bit), N=0..25 and 63..65 (2-bit); boundaries 127..129, '
+                                   '16383..16385; keys up to 2^40 s at N in {3,7,12}'},
+            'outside': 'populations between the sampled N for the inductive step; more than one unknown key at the '
+                       '128/16384 boundaries; expiries beyond 10^6 s except in the far-keys runs (up to 2^40 s)',
             'assumptions': ENV_ASSUMPTIONS + ['the inductive step is only as strong as its invariant: heap order + back '
                                               'indices + radix depth bounds, checked to be re-established']},
     'C06': {'runs': c06_runs,
